@@ -478,6 +478,9 @@ class Emit:
                 return "(match %s with\n    | some %s => (%s)\n    | none => none)" % (
                     self.valbranch(s[2], w, lambda t: "(some %s)" % t), self.tup([self.pat(s[1])] + w), tailstr())
             return "let %s := %s;\n    %s" % (self.tup([self.pat(s[1])] + w), self.valbranch(s[2], w, lambda t: t), tailstr())
+        if s[0] == "let" and s[2][0] == "mcall" and s[2][2] in self.cfg.get("sendres", {}):
+            log, tmpl = self.cfg["sendres"][s[2][2]]         # `let res = chan.send(msg);`: the message joins the log (the result is looked at later)
+            return "let %s := (%s ++ [%s]);\n    %s" % (log, log, tmpl.format(self.atom(s[2][1]), *[self.atom(a) for a in s[2][3]]), tailstr())
         if s[0] == "let" and s[2][0] == "mcall" and s[2][2] in self.cfg.get("optlets", {}):
             # `let x = recv.m();` where `m` unwraps inside (`unchecked_…`): the rest runs on `some`
             return "(match %s with\n    | some %s => (%s)\n    | none => none)" % (
@@ -1541,6 +1544,12 @@ FANOUT = [
          call={"crossbeam::channel::unbounded": "((), ())", "Arc::new": "{0}", "Commands::Distances": "({0}, {1}, {2})",
                "TrackDistanceOk::new": "{0}", "TrackDistanceErr::new": "{0}"},
          sendlog={"send": ("sent", "({0}, {1})")}),
+    dict(group="FanOut", name="store_merge_external_send", file="track/store.rs", impl=None, fn="merge_external_noblock", imperative=True, result="sent",
+         snippet=r"let executor_id = self\.get_executor\(dest_id as usize\);.*?let res = cmd\.send\(command\);",
+         sig="{T : Type} (getExecutor : Nat → Nat) (sent : List (Nat × Nat × T × List Nat × Bool)) (dest_id : Nat) (src : T) (classes : Option (List Nat)) (merge_history : Bool) : List (Nat × Nat × T × List Nat × Bool)",
+         method={"get_executor": "getExecutor {1}", "get_mut": "({1}, ())", "unwrap": "{0}", "to_vec": "{0}", "clone": "{0}"}, cast={"usize": "{0}"},
+         fieldpath={"self.executors": "()"}, macro={"vec": "[]"},
+         call={"Commands::Merge": "({0}, {1}, {2}, {3})", "Some": "some {0}"}, sendres={"send": ("sent", "({0}, {1})")}),
     dict(group="FanOut", name="store_owned_candidates", file="track/store.rs", impl=None, fn="owned_track_distances", imperative=True, result="tracks_vec",
          snippet=r"let mut tracks_vec = Vec::with_capacity\(tracks\.len\(\)\);.*?(?=let res = self\.foreign_track_distances)",
          sig="{T DB : Type} (shardOf : DB → Nat → List (Nat × T)) (db : DB) (tracks : List Nat) : List T",
